@@ -7,6 +7,16 @@ Trusted base added by these units (on top of contracts/lib/bigstub.rs + ratio_ty
                              core `impl<T> From<T> for T` is the identity (for (IBig, UBig) pairs);
                              DivEuclid / RemEuclid / DivRemEuclid for IBig (x == q*y + r, 0 <= r < |y|, zero divisor panics);
                              IBig +/- UBig, UBig - IBig (exact, IBig result); UBig * Sign (IBig).
+  contracts/lib/ratio2_cmp_stubs.rs  UBig/IBig::bit_len = blen(|v|), a function about which only the enclosure
+                             2^(k-1) <= |v| < 2^k (0 for zero) is assumed, and bit_len <= isize::MAX/2 (operand-size
+                             assumption); isize::abs_diff; AbsEq for IBig; Ord for IBig; &IBig * &UBig.
+  contracts/lib/ratio2_float_stubs.rs  dashu_float::Repr<B> abstract (sig, exp; is_infinite, into_parts); ConversionError
+                             mirrored; UBig::from_word, UBig::pow (exact power); `Repr::try_from(FBigRepr)` as seen by the
+                             macro-generated callers carries the predicate float_to_repr_post that the real body is proved
+                             against in the same unit.
+  contracts/lib/ratio2_pow_stubs.rs  UBig::{sqr, cubic}, IBig::{sqr (a UBig), cubic, pow}: exact powers.
+  contracts/lib/ratio2_eq_stubs.rs  (unit ratio_eq only, instead of bigstub) UBig/IBig abstract with `==` comparing
+                             the values, IBig::abs_eq comparing magnitudes; Repr/RBig/Relaxed struct mirrors.
 `%` is specified as dashu-ratio documents and tests it (rational/tests/div.rs: -1/2 % 1/3 == 1/6): the remainder of the
 division with the quotient rounded to the nearest integer, ties away from zero (|r| <= |rhs|/2) -- NOT the truncating
 remainder.
@@ -14,11 +24,22 @@ remainder.
 VERUS = {
     'ratio_rem': {'file': 'ratio_rem.rs', 'w32': False},
     'ratio_int_ops': {'file': 'ratio_int_ops.rs', 'w32': False},
+    'ratio_cmp': {'file': 'ratio_cmp.rs', 'w32': False},
+    'ratio_from_float': {'file': 'ratio_from_float.rs', 'w32': False},
+    'ratio_pow': {'file': 'ratio_pow.rs', 'w32': False},
+    'ratio_eq': {'file': 'ratio_eq.rs', 'w32': False},
 }
 
 PROP_UNITS = {
-    'C04': {'verus': ['ratio_rem', 'ratio_int_ops'],
-            'undecided': ['RBig/Relaxed op UBig/IBig and UBig/IBig op RBig/Relaxed (+ - * /): all 12 arms proved for the '
+    'C04': {'verus': ['ratio_rem', 'ratio_int_ops', 'ratio_from_float', 'ratio_pow'],
+            'undecided': ['sqr / cubic / pow of Repr, RBig, Relaxed: proved (numerator and denominator are the exact powers, '
+                          'canonical operands give canonical results) over the stub contracts of IBig/UBig sqr, cubic, pow',
+                          'TryFrom<dashu_float::Repr<B>> for Repr / RBig / Relaxed: proved (exact value m * B^e, RBig canonical, '
+                          'infinities -> OutOfBounds) for any base B >= 2 and exponent > isize::MIN; the instances are bound to '
+                          'the real invocations forward_conversion_to_repr!(RBig, reduce) / (Relaxed, reduce2); the one-line '
+                          'forwardings TryFrom<FBig<R, B>> (`value.into_repr().try_into()`) and From<Repr/RBig/Relaxed> for FBig '
+                          '(a rounding division, C03) are not under contract',
+                          'RBig/Relaxed op UBig/IBig and UBig/IBig op RBig/Relaxed (+ - * /): all 12 arms proved for the '
                           'by-value forwarding of impl_binop_with_int! with i: UBig and i: IBig (24 instances); the '
                           'by-reference forwardings clone the parts and run the same arm text, not instantiated',
                           'RBig/Relaxed `%`, div_euclid, rem_euclid, div_rem_euclid: proved for the by-value forwarding '
@@ -26,5 +47,18 @@ PROP_UNITS = {
                           'operands and are not instantiated',
                           '`%` by zero / Euclidean forms by zero: the panic is the precondition of the proved contracts '
                           '(it happens inside the stubbed IBig %, rem_euclid, div_rem_euclid or at the explicit guard)']},
-    'C16': {'verus': ['ratio_rem', 'ratio_int_ops'], 'undecided': []},
+    'C05': {'verus': ['ratio_cmp', 'ratio_eq'],
+            'undecided': ['rational == / cmp / abs_eq / abs_cmp: repr_eq and repr_cmp (both ABS instances) are proved to '
+                          'return the equality / order of the cross products a*d, c*b for ANY positive denominators '
+                          '(so also for non-reduced Relaxed values; cmp returns Equal exactly when == holds); the one-line '
+                          'forwardings (PartialEq/Ord for Repr, derive on Relaxed/RBig, forward_abs_ord_*) are not under contract',
+                          'bit lengths are cast `as isize` and added: proved free of overflow only under the stub assumption '
+                          'bit_len <= isize::MAX / 2 (Buffer::MAX_CAPACITY alone allows up to usize::MAX bits)',
+                          'PartialEq for RBig / AbsEq for RBig (component-wise): proved to hold exactly when the cross products '
+                          'are equal for canonical operands (unit ratio_eq, uniqueness of the canonical form: '
+                          'lemma_canonical_unique); Hash for RBig hashes the same two components, so equal values hash '
+                          'equally given that equal integers do (integer layer) -- the Hasher itself is not modelled',
+                          'repr_cmp_ubig / repr_cmp_ibig / repr_cmp_fbig (comparison with integers and floats through '
+                          'f32 log2_bounds estimates): not under contract']},
+    'C16': {'verus': ['ratio_rem', 'ratio_int_ops', 'ratio_from_float', 'ratio_pow'], 'undecided': []},
 }
